@@ -539,6 +539,12 @@ def order(s1, s2, env):
         if s1[0] == "tup" and s2[0] == "tup":
             return UNSPEC
         b1, b2 = dep_bound(s1, env), dep_bound(s2, env)
+        if (b1 is None and b2 is None and s1[0] == "dep" and s2[0] == "dep"
+                and s1[1][0] == "union" and s2[1][0] == "union"
+                and all(m[0] == "cls" for m in s1[1][1] + s2[1][1])
+                and {_canon(m) for m in s1[1][1]} == {_canon(m) for m in s2[1][1]}):
+            # the same bound written twice as a union of plain classes is still the same bound
+            return NONE
         if b1 is None or b2 is None:
             return UNSPEC
         if b1 is b2:
